@@ -299,3 +299,23 @@ impl<V> DynPred<V> {
     { unimplemented!() }
 }
 }
+verus! {
+// ---------------------------------------------------------------- `x.to_string()` via Display
+// vstd specifies `<T as ToString>::to_string` as `to_string_from_display_ensures::<T>(self, r)`
+// and only defines that predicate for `str`.  Display of `String` prints the string; Display
+// of the unsigned integers prints decimal digits.
+pub broadcast axiom fn axiom_to_string_string(t: &String, s: String)
+    ensures #[trigger] vstd::string::to_string_from_display_ensures::<String>(t, s) <==> s@ == t@;
+pub broadcast axiom fn axiom_to_string_u64(t: &u64, s: String)
+    ensures #[trigger] vstd::string::to_string_from_display_ensures::<u64>(t, s) <==> s@ == dec(*t as nat);
+pub broadcast axiom fn axiom_to_string_u128(t: &u128, s: String)
+    ensures #[trigger] vstd::string::to_string_from_display_ensures::<u128>(t, s) <==> s@ == dec(*t as nat);
+pub broadcast axiom fn axiom_to_string_usize(t: &usize, s: String)
+    ensures #[trigger] vstd::string::to_string_from_display_ensures::<usize>(t, s) <==> s@ == dec(*t as nat);
+pub broadcast group group_to_string {
+    axiom_to_string_string,
+    axiom_to_string_u64,
+    axiom_to_string_u128,
+    axiom_to_string_usize,
+}
+}
